@@ -320,5 +320,206 @@ fn run1(op: &[u64]) -> Vec<u64> {
 }
 
 pub fn run_case(ops: &[Vec<u64>]) -> Vec<Vec<u64>> {
-    ops.iter().map(|op| std::panic::catch_unwind(|| run1(op)).unwrap_or_else(|_| vec![97])).collect()
+    ops.iter().map(|op| if op.first() == Some(&9) { effects_case(op) } else if op.first() == Some(&8) { same_alloc_union(op) } else { std::panic::catch_unwind(|| run1(op)).unwrap_or_else(|_| vec![97]) }).collect()
+}
+
+// ------------------------------------------------------------------------------------------------
+// side-effect freedom and panic safety of comparing / hashing / formatting through handles (C04, C07)
+// case `[9, kind, which, mode]`:
+//   kind  0 Arc  1 OffsetArc  2 ArcBorrow  3 ArcUnion  4 ThinArc  5 Arc<HeaderSlice<H,[T]>>
+//   which 0 ==  1 !=  2 partial_cmp  3 <  4 cmp  5 hash  6 {:?}  7 {}
+//   mode  0 the payload's impl answers, 1 it panics
+// observation `[status, counts unchanged during and after, bad accesses, values destroyed when everything is released]`
+//   status: 0 returned, 1 panicked, 2 this kind does not have the operation
+// ------------------------------------------------------------------------------------------------
+use crate::talloc::{self, Ev};
+use crate::tok::{self, Tok};
+use std::cell::Cell;
+use std::panic::{catch_unwind, AssertUnwindSafe};
+
+thread_local! { static PANIC_IN_IMPL: Cell<bool> = Cell::new(false); }
+fn maybe_panic() {
+    if PANIC_IN_IMPL.with(|p| p.get()) {
+        panic!("scheduled panic in a comparison / hash / format impl");
+    }
+}
+pub struct PTok {
+    t: Tok,
+    v: u8,
+}
+impl PTok {
+    fn new(v: u8) -> PTok {
+        PTok { t: Tok::new(), v }
+    }
+}
+impl PartialEq for PTok {
+    fn eq(&self, o: &PTok) -> bool {
+        maybe_panic();
+        let _ = (self.t.id(), o.t.id());
+        self.v == o.v
+    }
+}
+impl Eq for PTok {}
+impl PartialOrd for PTok {
+    fn partial_cmp(&self, o: &PTok) -> Option<Ordering> {
+        maybe_panic();
+        let _ = (self.t.id(), o.t.id());
+        self.v.partial_cmp(&o.v)
+    }
+}
+impl Ord for PTok {
+    fn cmp(&self, o: &PTok) -> Ordering {
+        maybe_panic();
+        self.v.cmp(&o.v)
+    }
+}
+impl Hash for PTok {
+    fn hash<Hs: Hasher>(&self, h: &mut Hs) {
+        maybe_panic();
+        self.v.hash(h)
+    }
+}
+impl fmt::Debug for PTok {
+    fn fmt(&self, f: &mut fmt::Formatter) -> fmt::Result {
+        maybe_panic();
+        write!(f, "PTok({})", self.v)
+    }
+}
+impl fmt::Display for PTok {
+    fn fmt(&self, f: &mut fmt::Formatter) -> fmt::Result {
+        maybe_panic();
+        write!(f, "ptok{}", self.v)
+    }
+}
+
+/// run `op` with the payload impls armed or not; `counts` reads every count that must not move
+fn guarded(mode: u64, counts: &dyn Fn() -> Vec<usize>, op: &mut dyn FnMut(&dyn Fn())) -> (u64, u64) {
+    let before = counts();
+    let during_ok = Cell::new(true);
+    let probe = || {
+        if counts() != before {
+            during_ok.set(false)
+        }
+    };
+    PANIC_IN_IMPL.with(|p| p.set(mode == 1));
+    let r = catch_unwind(AssertUnwindSafe(|| op(&probe)));
+    PANIC_IN_IMPL.with(|p| p.set(false));
+    let same = during_ok.get() && counts() == before;
+    (r.is_err() as u64, same as u64)
+}
+
+fn basic_ops<A: PartialEq + fmt::Debug>(a: &A, b: &A, which: u64, mode: u64, counts: &dyn Fn() -> Vec<usize>) -> Option<(u64, u64)> {
+    let mut f: Box<dyn FnMut(&dyn Fn())> = match which {
+        0 => Box::new(|_| {
+            let _ = a == b;
+        }),
+        1 => Box::new(|_| {
+            let _ = a != b;
+        }),
+        6 => Box::new(|_| {
+            let _ = format!("{:?} {:#?}", a, b);
+        }),
+        _ => return None,
+    };
+    Some(guarded(mode, counts, &mut *f))
+}
+fn rich_ops<A: PartialEq + PartialOrd + Ord + Hash + fmt::Debug>(a: &A, b: &A, which: u64, mode: u64, counts: &dyn Fn() -> Vec<usize>) -> Option<(u64, u64)> {
+    let mut f: Box<dyn FnMut(&dyn Fn())> = match which {
+        2 => Box::new(|_| {
+            let _ = a.partial_cmp(b);
+        }),
+        3 => Box::new(|_| {
+            let _ = a < b;
+        }),
+        4 => Box::new(|_| {
+            let _ = a.cmp(b);
+        }),
+        5 => Box::new(|_| {
+            let _ = hbytes(a);
+        }),
+        _ => return basic_ops(a, b, which, mode, counts),
+    };
+    Some(guarded(mode, counts, &mut *f))
+}
+
+fn effects_case(op: &[u64]) -> Vec<u64> {
+    if op.len() != 4 || op[1] > 5 || op[2] > 7 || op[3] > 1 {
+        return vec![99];
+    }
+    let (kind, which, mode) = (op[1], op[2], op[3]);
+    tok::reset();
+    let _ = talloc::drain();
+    talloc::record(true);
+    let r: Option<(u64, u64)> = match kind {
+        0 => {
+            let (a, b) = (Arc::new(PTok::new(1)), Arc::new(PTok::new(2)));
+            let (wa, wb) = (a.clone(), b.clone());
+            let counts = || vec![Arc::strong_count(&wa), Arc::strong_count(&wb)];
+            if which == 7 {
+                let mut f = |_: &dyn Fn()| {
+                    let _ = format!("{} {:>8}", a, b);
+                };
+                Some(guarded(mode, &counts, &mut f))
+            } else {
+                rich_ops(&a, &b, which, mode, &counts)
+            }
+        }
+        1 => {
+            let (a, b) = (Arc::new(PTok::new(1)), Arc::new(PTok::new(2)));
+            let (wa, wb) = (a.clone(), b.clone());
+            let (oa, ob) = (Arc::into_raw_offset(a), Arc::into_raw_offset(b));
+            let counts = || vec![Arc::strong_count(&wa), Arc::strong_count(&wb)];
+            basic_ops(&oa, &ob, which, mode, &counts)
+        }
+        2 => {
+            let (a, b) = (Arc::new(PTok::new(1)), Arc::new(PTok::new(2)));
+            let (ba, bb) = (a.borrow_arc(), b.borrow_arc());
+            let counts = || vec![Arc::strong_count(&a), Arc::strong_count(&b)];
+            basic_ops(&ba, &bb, which, mode, &counts)
+        }
+        3 => {
+            let (a, b) = (Arc::new(PTok::new(1)), Arc::new(PTok::new(2)));
+            let (wa, wb) = (a.clone(), b.clone());
+            let (ua, ub) = (ArcUnion::<PTok, (PTok, u8)>::from_first(a), ArcUnion::<PTok, (PTok, u8)>::from_first(b));
+            let counts = || vec![Arc::strong_count(&wa), Arc::strong_count(&wb)];
+            basic_ops(&ua, &ub, which, mode, &counts)
+        }
+        4 => {
+            let a = ThinArc::from_header_and_iter(PTok::new(1), vec![PTok::new(3), PTok::new(4)].into_iter());
+            let b = ThinArc::from_header_and_iter(PTok::new(1), vec![PTok::new(3), PTok::new(5)].into_iter());
+            let (wa, wb) = (a.clone(), b.clone());
+            let counts = || vec![ThinArc::strong_count(&wa), ThinArc::strong_count(&wb)];
+            rich_ops(&a, &b, which, mode, &counts)
+        }
+        _ => {
+            let a = Arc::from_header_and_iter(HeaderWithLength::new(PTok::new(1), 2), vec![PTok::new(3), PTok::new(4)].into_iter());
+            let b = Arc::from_header_and_iter(HeaderWithLength::new(PTok::new(1), 2), vec![PTok::new(3), PTok::new(5)].into_iter());
+            let (wa, wb) = (a.clone(), b.clone());
+            let counts = || vec![Arc::strong_count(&wa), Arc::strong_count(&wb)];
+            rich_ops(&a, &b, which, mode, &counts)
+        }
+    };
+    talloc::record(false);
+    let evs = talloc::drain();
+    let bad = evs.iter().filter(|e| matches!(e, Ev::BadDtor { .. } | Ev::BadRead { .. } | Ev::BadDealloc { .. } | Ev::UnknownDealloc { .. })).count() as u64;
+    let dt = evs.iter().filter(|e| matches!(e, Ev::Dtor { .. })).count() as u64;
+    match r {
+        Some((status, same)) => vec![status, same, bad, dt],
+        None => vec![2, 1, bad, dt],
+    }
+}
+
+/// `[8, x, y]`: an `ArcUnion<T, T>` (equal types): the SAME allocation held once as First and once as Second, and the
+/// same variant of one allocation twice.  observation `[First(a) == Second(a), !=, First(a) == First(a), First(a) == Second(b)]`
+fn same_alloc_union(op: &[u64]) -> Vec<u64> {
+    if op.len() != 3 || op[1] > 2 || op[2] > 2 {
+        return vec![99];
+    }
+    let a = Arc::new(P0(op[1] as u8));
+    let b = Arc::new(P0(op[2] as u8));
+    let f = ArcUnion::<P0, P0>::from_first(a.clone());
+    let f2 = ArcUnion::<P0, P0>::from_first(a.clone());
+    let s = ArcUnion::<P0, P0>::from_second(a.clone());
+    let sb = ArcUnion::<P0, P0>::from_second(b);
+    vec![(f == s) as u64, (f != s) as u64, (f == f2) as u64, (f == sb) as u64]
 }
